@@ -339,11 +339,22 @@ func parseBalanceChange(rawData []byte, sl types.StakerList) (map[string]int, er
 		for i := 7; i >= 0; i-- {
 			index++
 			if (b>>i)&1 == 1 {
+				// the report is produced off-chain and is re-applied when a round fails: it may name a
+				// staker that has left the list or be cut short, which must be an error and not a panic
+				if index >= len(sl.StakerAddrs) {
+					return stakerChanges, errors.New("balance change refers to a staker index beyond the staker list")
+				}
+				if byteIndex >= len(changes) {
+					return stakerChanges, errors.New("balance change details are shorter than the staker bitmap requires")
+				}
 				lenValue := changes[byteIndex] << bitOffset
 				bitsLeft := 8 - bitOffset
 				lenValue >>= (8 - lengthBits)
 				if bitsLeft < lengthBits {
 					byteIndex++
+					if byteIndex >= len(changes) {
+						return stakerChanges, errors.New("balance change details are shorter than the staker bitmap requires")
+					}
 					lenValue |= changes[byteIndex] >> (8 - lengthBits + bitsLeft)
 					bitOffset = lengthBits - bitsLeft
 				} else {
@@ -364,6 +375,9 @@ func parseBalanceChange(rawData []byte, sl types.StakerList) (map[string]int, er
 				bitsExtracted := 0
 				stakerChange := 0
 				for bitsExtracted < int(lenValue) {
+					if byteIndex >= len(changes) {
+						return stakerChanges, errors.New("balance change details are shorter than the staker bitmap requires")
+					}
 					bitsLeft := 8 - bitOffset
 					byteValue := changes[byteIndex] << bitOffset
 					if (int(lenValue) - bitsExtracted) < bitsLeft {
